@@ -110,7 +110,6 @@ func register(name string, d Def) {
 				recs = append(recs, r)
 				caseLines = append(caseLines, cases[ci])
 				flat = append(flat, r)
-				r = Rec{"case": cases[ci], "kind": r["kind"], "sub": r["sub"]}
 				if d.Nontrivial != nil && !d.Nontrivial(r) {
 					continue
 				}
@@ -118,7 +117,7 @@ func register(name string, d Def) {
 				if d.Key != nil {
 					k = d.Key(r)
 				} else {
-					b, _ := json.Marshal([]any{r["case"], r["kind"], r["sub"]})
+					b, _ := json.Marshal([]any{cases[ci], r["kind"], r["sub"]})
 					k = string(b)
 				}
 				if !seen[k] {
